@@ -10,8 +10,8 @@ GAP = M_LAG + ":_GapResult"
 
 
 def check(ctx):
-    r081_082(ctx)
-    r083(ctx)
+    ctx.guard(r081_082, ctx)
+    ctx.guard(r083, ctx)
 
 
 def _no_lag(fq, depth):
